@@ -20,7 +20,7 @@ TARGETS = ['valjean.cosette.use:Use.from_func', 'valjean.cosette.use:Use.__init_
            'valjean.cosette.task:close_dependency_graph', 'valjean.cambronne.common:check_unique_task_names', 'valjean.cambronne.common:collect_tasks']
 BOUNDS = {'quick': {'use': 'histories of 2 requests: function in {f, another function also named f, h}, injected task in {T1,T2}, key in '
                            "{'result','other'}, positional/keyword, hard/soft; caches start empty",
-                    'factory': 'histories of 3 make() calls on one factory (and a copy): extra_args in 2 values, deps/soft_deps in {none, [D]}, name none',
+                    'factory': 'histories of 3 make() calls on one factory (and a copy): extra_args in 2 values, deps/soft_deps in {none, [D]}, name none; the factory itself made without dependencies, with a hard one, with a hard and a soft one',
                     'stacked wrappers': 'a wrapper specialised 2 times (parent: base or an earlier specialisation; task, key, positional/keyword x/y solver-chosen)',
                     'factories differing in default keywords': '2 make() calls on two sibling factories (same executable with v=v1 / v=v2, or two executables of one build task), call-time override none/v1/v2, 2 extra_args; + a wrapper task on each',
                     'closure': 'all hard/soft/none graphs on <= 3 tasks'},
@@ -124,9 +124,10 @@ def make_factory_harness(n):
         class Plain(Task):
             def do(self, env, config):
                 return {}, TaskStatus.DONE
-        D, S, B = Plain('D'), Plain('S'), Plain('BASE')
-        base_deps = [B] if ex.flag('factory-has-deps') else []
-        fac = runmod.RunTaskFactory.from_executable('/bin/exe', default_args=['--opt'], deps=list(base_deps))
+        D, S, B, BS = Plain('D'), Plain('S'), Plain('BASE'), Plain('BASESOFT')
+        # dependencies given to the FACTORY: none, hard only, hard and soft (every task made by it, or by a copy of it, carries them)
+        base_deps, base_soft = [([], []), ([B], []), ([B], [BS])][ex.choice(3, 'factory-level-dependencies')]
+        fac = runmod.RunTaskFactory.from_executable('/bin/exe', default_args=['--opt'], deps=list(base_deps), soft_deps=list(base_soft))
         facs = [fac]
         reqs, tasks = [], []
         for r in range(n):
@@ -171,14 +172,14 @@ def make_factory_harness(n):
                     continue
                 _, xa, dp, sd = reqs[r]
                 ex.check(set(tasks[r].depends_on) == set(base_deps) | ({D} if dp else set()) and
-                         set(tasks[r].soft_depends_on) == ({S} if sd else set()),
+                         set(tasks[r].soft_depends_on) == set(base_soft) | ({S} if sd else set()),
                          'factory:task-has-exactly-the-requested-dependencies')
                 del calls[:]
                 upd, st = tasks[r].do(Env(), _Cfg(tmp))
                 ex.check(calls == [['/bin/exe', '--opt'] + [['a'], ['b']][xa]] and st == TaskStatus.DONE,
                          'factory:task-runs-the-requested-command-line')
             for fc in facs:
-                ex.check(list(fc.deps) == list(base_deps) and list(fc.soft_deps) == [], 'factory:make-does-not-change-the-factory')
+                ex.check(list(fc.deps) == list(base_deps) and list(fc.soft_deps) == list(base_soft), 'factory:make-does-not-change-the-factory')
         finally:
             runmod.call = saved
             shutil.rmtree(tmp, ignore_errors=True)
